@@ -22,6 +22,27 @@ OL = "threading.OrderedLock"
 
 
 class LockHooks(Hooks):
+    chk = None
+
+    def cm_enter(self, eng, st, cm):
+        if isinstance(cm, Ref) and cm.cls == "opaque:Lock":
+            st.ghost["held"] = st.ghost.get("held", 0) + 1
+            return [("val", cm, st)]
+        return Hooks.cm_enter(self, eng, st, cm)
+
+    def cm_exit(self, eng, st, cm, exc):
+        if isinstance(cm, Ref) and cm.cls == "opaque:Lock":
+            st.ghost["held"] = st.ghost.get("held", 0) - 1
+            return [("val", None, st)]
+        return Hooks.cm_exit(self, eng, st, cm, exc)
+
+    def under_lock(self, st, what):
+        """G makes a `with self._lock:` block one atomic action - so every access to the shared queue / events must be inside one"""
+        if self.chk is not None:
+            self.chk.prove("C19.atomic.shared_access_under_lock", st.pc, st.ghost.get("held", 0) > 0,
+                           desc="every operation on the waiter queue and every Event.set happens inside a `with self._lock:` block (otherwise the atomic-action decomposition - and the invariant proof - does not apply)",
+                           sample=f"{what} while holding the lock")
+
     def ext_call(self, eng, st, name, args, kwargs):
         if name in ("threading.Event", "Event"):
             t = st.ghost["issued"]  # the ticket this Event will get if it is appended now
@@ -34,6 +55,7 @@ class LockHooks(Hooks):
     def opaque_call(self, eng, st, fn, args, kwargs):
         n = fn.name
         if n == "TEvent.set":
+            self.under_lock(st, "Event.set")
             t = st.get(fn.info)["ticket"]
             st.ghost["setf"] = z3.Store(st.ghost["setf"], t, True)
             st.emit("set", ticket=t)
@@ -53,6 +75,7 @@ class DequeModel:
 
     def method(self, eng, st, ref, name, args, kwargs):
         g = st.ghost
+        eng.hooks.under_lock(st, "deque." + name)
         if name == "append":
             t = st.get(args[0])["ticket"]
             self.chk.prove("C19.fifo.append_continues_run", st.pc, t == g["issued"], desc="an Event is appended at the tail of the ticket order")
@@ -72,9 +95,11 @@ class DequeModel:
         raise Unsupported(f"deque.{name}")
 
     def len(self, eng, st, ref):
+        eng.hooks.under_lock(st, "len(deque)")
         return [("val", Sym("int", s_len(st)), st)]
 
     def getitem(self, eng, st, ref, k):
+        eng.hooks.under_lock(st, "deque[0]")
         if k == 0:
             out = []
             for empty, s in eng.branch(st, s_len(st) <= 0):
@@ -97,15 +122,20 @@ def inv(st, broken=None):
                   z3.Implies(b, z3.ForAll([i], z3.Implies(z3.And(i >= served, i < issued), z3.Select(setf, i)))))
 
 
-def setup(chk):
-    eng = Engine(hooks=LockHooks())
+def setup(chk, stored="symexc"):
+    hooks = LockHooks()
+    hooks.chk = chk
+    eng = Engine(hooks=hooks)
     eng.container_models["tdeque"] = DequeModel(chk)
     P = eng.program
     st = St()
     st.ghost["served"], st.ghost["issued"] = z3.Int("served"), z3.Int("issued")
     st.ghost["setf"] = z3.Array("setf", z3.IntSort(), z3.BoolSort())
     broken = fresh("bool", "broken")
-    lock = st.alloc(P.cls(OL), {"_lock": st.alloc("opaque:Lock", {}), "_waiters": st.alloc("tdeque", {"__kind__": "tdeque", "__truth__": lambda s_: s_len(s_) > 0}), "_is_broken": broken, "_exception": eng.sym_of_type("str | None", "stored_exc", st)})
+    lock = st.alloc(P.cls(OL), {"_lock": st.alloc("opaque:Lock", {}), "_waiters": st.alloc("tdeque", {"__kind__": "tdeque", "__truth__": lambda s_: s_len(s_) > 0}), "_is_broken": broken, "_exception": None})
+    # the exception that broke the lock: any exception object, including one constructed without arguments
+    exc_obj = eng.new_symexc(st, "stored") if stored == "symexc" else st.alloc("exc:RuntimeError", {"args": ()})
+    st.setfield(lock, "_exception", mk_opt(z3.Not(broken.t), exc_obj))
     st.ghost["broken_of"] = lambda s: zbool(s.get(lock)["_is_broken"]) if not isinstance(s.get(lock)["_is_broken"], bool) else z3.BoolVal(s.get(lock)["_is_broken"])
     st.assume(inv(st))
     return eng, st, lock
@@ -141,7 +171,17 @@ def run(chk):
     chk.trust("z3 5.1.0")
     P = None
     # ------------------------------------------------------------------ acquire: action A, wait, action B
+    stored_kind = ["symexc"]
+    P = Engine().program if False else None
+    for stored_kind[0] in ("symexc", "noargs"):
+        acquire_paths(chk, stored_kind)
     eng, st, lock = setup(chk)
+    P = eng.program
+    rest_of_lock(chk, eng, st, lock, P)
+
+
+def acquire_paths(chk, stored_kind):
+    eng, st, lock = setup(chk, stored_kind[0])
     P = eng.program
     for m in ("acquire", "release", "reset", "is_broken", "__enter__", "__exit__"):
         chk.function(f"{OL}.{m}", "verified (atomic actions extracted from the `with self._lock` blocks)")
@@ -160,7 +200,7 @@ def run(chk):
         g["setf"] = z3.Array(fresh_name("setf"), z3.IntSort(), z3.BoolSort())
         nb = fresh("bool", "broken_after_wait")
         s.setfield(lock, "_is_broken", nb)
-        s.setfield(lock, "_exception", eng_.sym_of_type("str | None", "stored_exc2", s))
+        s.setfield(lock, "_exception", mk_opt(z3.Not(nb.t), eng_.new_symexc(s, "stored2") if stored_kind[0] == "symexc" else s.alloc("exc:RuntimeError", {"args": ()})))
         s.assume(inv(s))
         s.assume(z3.And(g["served"] >= served0, g["served"] <= my, g["issued"] > my))   # my ticket is still queued: only its holder pops a head
         s.assume(z3.Select(g["setf"], my))                                              # wait() returned: my event is set (level-triggered)
@@ -183,6 +223,9 @@ def run(chk):
         else:
             chk.prove("C19.exit.breaks.current_waiters", s.pc, z3.And(z3.BoolVal(getattr(getattr(v, "cls", None), "name", "") == "OrderedLockError"), b_now),
                       desc="a waiter woken after the lock was broken gets OrderedLockError instead of ownership")
+
+
+def rest_of_lock(chk, eng, st, lock, P):
     # ------------------------------------------------------------------ release (by the holder)
     eng, st, lock = setup(chk)
     eng.loop_handlers[(OL + ".__exit__", "for", 0)] = foreach_set_all(chk)
@@ -242,7 +285,7 @@ class CounterHooks(Hooks):
     pass
 
 
-def counter_sequence(chk):
+def counter_sequence(chk, name="C19.counter.sequence"):
     """OrderedCounter.increment: invariant `_counter == number of completed increments`; the field is stable only while the lock is held"""
     eng = Engine(hooks=LockHooks())
     P = eng.program
@@ -279,6 +322,6 @@ def counter_sequence(chk):
         goal = z3.BoolVal(ok)
         if ok:
             goal = z3.And(goal, s.ghost["at_exit"] == s.ghost["at_entry"] + 1, zint(v) == s.ghost["at_entry"] + 1)
-        chk.prove("C19.counter.sequence", s.pc, goal,
+        chk.prove(name, s.pc, goal,
                   desc="the k-th holder (k-1 completed increments before it) leaves the counter at k and returns k: with mutual exclusion and ticket order (C19.lemma.mutex_fifo) n incrementers get 1..n exactly once, in arrival order",
                   sample="increment under the lock contract: returns entry value + 1, read inside the critical section")
